@@ -216,6 +216,25 @@ def check_c12(case):
         if common:
             return Verdict(False, "%s: solution %s is found in two sub-problems" % (where, list(next(iter(common)))), nt, tags)
         got += c
+    if _snapshot(pb) != before:
+        return Verdict(False, "%s: solving the sub-problems modified the original problem (shared state)" % where, nt, tags)
+    # the sub-problems are problems of their own: changing one of them changes neither the others nor the original
+    if subs:
+        snaps = [_snapshot(sp) for sp in subs]
+        subs[0].add_propagator(([0], nx.ALG["dummy"], []))
+        subs[0].shr_domains_lst[0][0] = subs[0].shr_domains_lst[0][0]  # (touch)
+        for i, sp in enumerate(subs[1:], 1):
+            if _snapshot(sp) != snaps[i]:
+                return Verdict(False, "%s: adding a constraint to sub-problem 0 changed sub-problem %d (shared state)" % (where, i), nt, tags)
+        if _snapshot(pb) != before:
+            return Verdict(False, "%s: adding a constraint to sub-problem 0 changed the original problem (shared state)" % where, nt, tags)
+        for name_ in ("propagators", "dom_indices_lst", "dom_offsets_lst", "shr_domains_lst"):
+            objs = [getattr(x, name_) for x in [pb] + list(subs)]
+            if len({id(o) for o in objs}) != len(objs):
+                return Verdict(False, "%s: the attribute %s is one shared object for several of the problems" % (where, name_), nt, tags)
+        rows = [id(r) for x in [pb] + list(subs) for r in x.shr_domains_lst]
+        if len(set(rows)) != len(rows):
+            return Verdict(False, "%s: rows of shr_domains_lst are shared between problems" % where, nt, tags)
     if got != expect:
         return Verdict(
             False,
